@@ -440,6 +440,7 @@ def doGet (P : Params V) (T : Tables) (w : World V) (o : Obj) (name : String) (k
   match (if o = .groups then nestedName name else none) with
   | some inner =>
     -- the factory requests `inner` (no keyword arguments) before its own value is stored
+    if !(facsOf T w.regs o.cls).any (fun p => p.1 = inner) then (w, .err "KeyError") else
     match (cacheOf w o).get? name sk with
     | some _ => (w, .got 0)
     | none =>
